@@ -1,6 +1,6 @@
 #!/bin/sh
 # offline setup: nothing to fetch; verify the tools the checks need are present
 set -e
-for t in cbmc clang++-14 g++ gcc python3 cvc5; do command -v $t >/dev/null || { echo "missing tool: $t"; exit 1; }; done
+for t in cbmc clang++-14 g++ gcc python3 python3-vt cvc5; do command -v $t >/dev/null || { echo "missing tool: $t"; exit 1; }; done
 mkdir -p /verif/build /verif/out /verif/evidence
 echo setup ok
